@@ -646,6 +646,13 @@ impl Database {
             })
             .collect();
 
+        let unique_index_names: Vec<String> = table_def
+            .indexes()
+            .iter()
+            .filter(|idx| idx.is_unique())
+            .map(|idx| idx.name().to_string())
+            .collect();
+
         let unique_columns: Vec<(usize, String, bool)> = columns
             .iter()
             .enumerate()
@@ -735,11 +742,16 @@ impl Database {
                         continue;
                     }
                     if file_manager.index_exists(&schema_name, &table_name, index_name) {
-                        let all_non_null = col_indices
-                            .iter()
-                            .all(|&idx| row_values.get(idx).is_some_and(|v| !v.is_null()));
+                        // same key layout as INSERT. Non-unique index: every indexed column
+                        // (NULLs included) followed by the row key. Unique index: the columns
+                        // only, and only when none is NULL.
+                        let is_unique_index = unique_index_names.iter().any(|n| n == index_name);
+                        let indexed = !is_unique_index
+                            || col_indices
+                                .iter()
+                                .all(|&idx| row_values.get(idx).is_some_and(|v| !v.is_null()));
 
-                        if all_non_null {
+                        if indexed {
                             let index_storage_arc = file_manager.index_data_mut(
                                 &schema_name,
                                 &table_name,
@@ -759,6 +771,9 @@ impl Database {
                                 if let Some(value) = row_values.get(col_idx) {
                                     Self::encode_value_as_key(value, key_buf);
                                 }
+                            }
+                            if !is_unique_index {
+                                key_buf.extend_from_slice(&entry.key);
                             }
                             let _ = index_btree.delete(key_buf);
                         }
@@ -802,15 +817,8 @@ impl Database {
                                 key_buf.clear();
                                 Self::encode_value_as_key(value, key_buf);
 
-                                let pk_idx = columns
-                                    .iter()
-                                    .position(|c| c.has_constraint(&Constraint::PrimaryKey));
-                                if let Some(pk_idx) = pk_idx {
-                                    if let Some(OwnedValue::Int(pk_val)) = row_values.get(pk_idx) {
-                                        let row_id_bytes = (*pk_val as u64).to_be_bytes();
-                                        let _ = index_btree.insert(key_buf, &row_id_bytes);
-                                    }
-                                }
+                                // index entries point at the row key, exactly as INSERT writes them
+                                let _ = index_btree.insert(key_buf, &entry.key);
                             }
                         }
                     }
@@ -821,11 +829,13 @@ impl Database {
                         continue;
                     }
                     if file_manager.index_exists(&schema_name, &table_name, index_name) {
-                        let all_non_null = col_indices
-                            .iter()
-                            .all(|&idx| row_values.get(idx).is_some_and(|v| !v.is_null()));
+                        let is_unique_index = unique_index_names.iter().any(|n| n == index_name);
+                        let indexed = !is_unique_index
+                            || col_indices
+                                .iter()
+                                .all(|&idx| row_values.get(idx).is_some_and(|v| !v.is_null()));
 
-                        if all_non_null {
+                        if indexed {
                             let index_storage_arc = file_manager.index_data_mut(
                                 &schema_name,
                                 &table_name,
@@ -846,16 +856,10 @@ impl Database {
                                     Self::encode_value_as_key(value, key_buf);
                                 }
                             }
-
-                            let pk_idx = columns
-                                .iter()
-                                .position(|c| c.has_constraint(&Constraint::PrimaryKey));
-                            if let Some(pk_idx) = pk_idx {
-                                if let Some(OwnedValue::Int(pk_val)) = row_values.get(pk_idx) {
-                                    let row_id_bytes = (*pk_val as u64).to_be_bytes();
-                                    let _ = index_btree.insert(key_buf, &row_id_bytes);
-                                }
+                            if !is_unique_index {
+                                key_buf.extend_from_slice(&entry.key);
                             }
+                            let _ = index_btree.insert(key_buf, &entry.key);
                         }
                     }
                 }
